@@ -1328,7 +1328,7 @@ func init() {
 	vh.Describe(
 		"Exhaustive enumeration, one case per file / definition / reference. "+
 			"`generated`: every registered regime, addon, catalogue, every registered schema type and currency/codes.go is regenerated in-process through the API the go:generate programs use (schema.NewObject + json.MarshalIndent; jsonschema.Reflector with AddGoComments read from the tree and the registry Lookup; the template text taken from currency/generate.go executed over currency.Definitions()) and compared byte for byte with the shipped file. "+
-			"`after_use`: every example document goes through calculate, validate, the correction options schema, corrections of three types (with copy-tax) and replication; afterwards the definitions of its regime and addons are generated again and must still equal the shipped files (a merge or normaliser that writes into a registered definition makes the library apply something no file publishes). "+
+			"`after_use`: every example document goes through calculate, validate, the correction options schema, corrections of three types (with copy-tax) and replication, and the percentages, surcharges, extension values and notes of the calculated invoice are written over in place; afterwards the definitions of its regime and addons are generated again and must still equal the shipped files (a merge or normaliser that writes into a registered definition makes the library apply something no file publishes). "+
 			"`shipped`: every file under data/regimes, data/addons, data/catalogues, data/schemas must be the output path of a registered definition (no orphan). "+
 			"`served`: the bulk `regime` / `schema` actions (cli.Bulk in-process), asked once per registered regime code / schema id and once per shipped file, must answer with the shipped bytes. "+
 			"`definitions`: each regime / addon passes its own Validate both as registered and as read back from the shipped JSON; regime currency is listed in data/currency/*.json; time zone is a loadable IANA location (embedded tzdata); catalogue extension definitions pass cbc.Definition.Validate. "+
